@@ -84,16 +84,25 @@ let predict_near (us : string list) : string list =
     bit o.w_ok ^ bit (zle next ret)) us
 
 (* prof: the configured profile, from the segment list (all times in ns) *)
-let segments_of (s : string) : segment list =
+let parts_of (s : string) : part list =
   List.map (fun sg ->
+    let zi x = z_of_zt (ZT.of_string x) in
     match String.split_on_char '.' sg with
-    | [ "once"; n ] -> SOnce (nat_of_int (int_of_string n))
+    | [ "once"; n ] -> CSeg (SOnce (nat_of_int (int_of_string n)))
     | [ "const"; ops; d ] ->
         let ops = int_of_string ops and d = int_of_string d in
-        SConst (z_of_zt (ZT.of_int (1000000000 / ops)), nat_of_int (ops * d / 1000), z_of_ms (string_of_int d))
-    | [ "pause"; d ] -> SPause (z_of_ms d)
-    | [ "unl"; d ] -> SUnl (z_of_ms d)
+        CSeg (SConst (z_of_zt (ZT.of_int (1000000000 / ops)), nat_of_int (ops * d / 1000), z_of_ms (string_of_int d)))
+    | [ "pause"; d ] -> CSeg (SPause (z_of_ms d))
+    | [ "unl"; d ] -> CSeg (SUnl (z_of_ms d))
+    (* the profile types that build a composite themselves: Model/WaiterProfile.v says what they are configured to mean *)
+    | [ "step"; f; t; st; d ] -> CStep (zi f, zi t, zi st, z_of_ms d)
+    | [ "istep"; f; t; st; d ] -> CInstStep (zi f, zi t, zi st, z_of_ms d)
     | _ -> failwith ("bad segment " ^ sg)) (String.split_on_char ';' s)
+
+let segments_of (s : string) : segment list =
+  match profile_segments (parts_of s) with
+  | Some l -> l
+  | None -> failwith ("not a valid profile: " ^ s)
 
 let us_string (x : z) : string = ZT.to_string (ZT.div (zt_of_z x) (ZT.of_int 1000))
 
